@@ -25,6 +25,10 @@ let run_case oc id (nodes : pnode list) (roots : int list) =
       let same = b2i (conj_same a b) in
       Printf.fprintf oc "Q %s %d %d %d%d%d%d%d%d%d\n" id ra rb (b2i (isEqualTo a b)) (b2i (isNegationOf a b))
         (b2i (isSubsetOf a b)) cb cb same same) conj) conj;
+    List.iter (fun (ra, a) -> List.iter (fun (rb, b) ->
+      Printf.fprintf oc "I %s %d %d %s\n" id ra rb (terms_str (intersectTermsWith a b));
+      if removeTerms_pre a b then Printf.fprintf oc "R %s %d %d %s\n" id ra rb (terms_str (removeTerms a b))
+      else Printf.fprintf oc "R %s %d %d pre0\n" id ra rb) conj) conj;
     (* build is applied successively to the growing graph, as the harness does on the one circuit *)
     let g = ref g in
     List.iter (fun (r, c) ->
